@@ -32,6 +32,8 @@ int main(int argc, char **argv)
         printf("\n");
     }
     list_iterator_destroy(itr);
+    { hostlist_iterator_t it = hostlist_iterator_create(conf_getnodes()); char *n; int first = 1; printf("NODES ");
+      while ((n = hostlist_next(it))) { printf("%s", first ? "" : ","); hex(n); first = 0; free(n); } hostlist_iterator_destroy(it); printf("\n"); }
 
     while (fgets(line, sizeof line, stdin)) {
         int com; char expr[1 << 15];
